@@ -34,6 +34,20 @@ CLAIMS = {
                   "instantiation for counterexamples) + bounded run-time contract checks on operation histories",
         note=TB + "; invariants assumed on entry (hold for fresh objects); __call__/__setattr__/_to_array and the "
              "elaborated result are covered only by the bounded part"),
+    "C18": dict(
+        category="other",
+        text="Hybrid. Proved (pyvc, quantified namespace invariant Inv_ns, from the current source): module._add, "
+             "Module.add, Module.__setattr__, Module.get, Module.__getattr__, Module.__delattr__ and bundle._add keep "
+             "every kind view equal to the restriction of the namespace to that kind (re-use of a name evicts the old "
+             "entry), set the parent, reject reserved names / non-HDL values / additions after elaboration, and change "
+             "nothing else (whole-view postconditions and frames). Bounded (labelled): the same contract evaluated "
+             "at run time after every step of enumerated setattr/add/get histories on real Modules and Bundles, plus "
+             "sub-classing, freeze and class-style == procedural.",
+        design_ref="DESIGN.md section 4 C18",
+        technique="contract-based deductive verification (pyvc VCs with quantified heap invariants, z3) + bounded "
+                  "run-time contract checks on edit histories",
+        note=TB + "; Inv_ns assumed on entry (fresh containers are empty); Bundle.add/__setattr__ and the decorators "
+             "are covered only by the bounded part"),
 }
 
 NA_REASON = "check not built yet (work in progress; see DESIGN.md section 4 for the plan)"
